@@ -99,7 +99,8 @@ Record tables := mkT {
   t_rearm_backend_wait : bool;
   t_h1_close_after_close : bool;   (* h1.rs: a response ended by the backend's close ends the client connection *)
   t_h1_close_if_request_open : bool; (* h1.rs: a final response to an unfinished request ends the client connection *)
-  t_h1_head_gate : bool            (* h1.rs writable, Server position: nothing of a response is written before its head is complete *)
+  t_h1_head_gate : bool;           (* h1.rs writable, Server position: nothing of a response is written before its head is complete *)
+  t_park_requires_terminated : bool (* h1.rs end_stream, Connected backend: parked for reuse only if keep-alive AND the response is terminated *)
 }.
 
 (** * The hand mirror of the source (what the theorems are proved about) *)
@@ -162,7 +163,7 @@ Definition spec_known_codes : list N := [301; 302; 308; 400; 401; 404; 408; 421;
 Definition spec_tables : tables :=
   mkT spec_esd spec_connect 301 spec_ft spec_bt spec_end_arm
       [ESetState SUnlinked; EArm] [ESetState SUnlinked; EArm] spec_known_codes
-      3 true true true true true true true true.
+      3 true true true true true true true true true.
 
 (** * One stream and its frontend connection *)
 
@@ -201,7 +202,9 @@ Record conn := mkC {
   c_ev_w : bool;            (* frontend readiness.event has WRITABLE *)
   c_ftimer : bool;          (* frontend timeout armed *)
   c_btimer : bool;          (* backend timeout armed (a backend connection exists) *)
-  c_closed : bool           (* session closed *)
+  c_closed : bool;          (* session closed *)
+  c_bparked : bool;         (* a backend connection of this session is parked (KeepAlive) for reuse *)
+  c_bdirty : bool           (* ghost: the parked connection still owes bytes of an earlier response *)
 }.
 
 Definition valuation (c : conn) (s : stream) (x : cond) : bool :=
@@ -230,7 +233,9 @@ Inductive ev :=
 | EvClientGone            (* the client went away *)
 | EvRecycle               (* the slot is reset for the next request *)
 | EvInterim               (* an interim response (100 / 103) was written to the client *)
-| EvUpgrade.              (* a 101 was written: the session leaves the mux for a pipe *)
+| EvUpgrade               (* a 101 was written: the session leaves the mux for a pipe *)
+| EvCancelled             (* the client cancelled the request (RST_STREAM) *)
+| EvCrossTalk.            (* a request was attached to a backend connection that still owes bytes of another response *)
 
 (** status actually rendered for a requested code (default_answer_for_code's catch-all is 503) *)
 Definition resolved (T : tables) (code : N) : N :=
@@ -251,11 +256,13 @@ Definition set_done (s : stream) (b : bool) : stream :=
 Definition set_clean (s : stream) (b : bool) : stream :=
   mkS (s_state s) (s_attempts s) (s_fcons s) (s_phase s) (s_bcons s) (s_pending s) (s_ka s) (s_origin s) (s_done s) b (s_ropen s) (s_interim s).
 Definition set_arm (c : conn) (i e : bool) : conn :=
-  mkC (c_h2 c) i e (c_ftimer c) (c_btimer c) (c_closed c).
+  mkC (c_h2 c) i e (c_ftimer c) (c_btimer c) (c_closed c) (c_bparked c) (c_bdirty c).
 Definition set_timers (c : conn) (f b : bool) : conn :=
-  mkC (c_h2 c) (c_int_w c) (c_ev_w c) f b (c_closed c).
+  mkC (c_h2 c) (c_int_w c) (c_ev_w c) f b (c_closed c) (c_bparked c) (c_bdirty c).
 Definition set_closed (c : conn) : conn :=
-  mkC (c_h2 c) (c_int_w c) (c_ev_w c) false false true.
+  mkC (c_h2 c) (c_int_w c) (c_ev_w c) false false true false false.
+Definition set_park (c : conn) (p d : bool) : conn :=
+  mkC (c_h2 c) (c_int_w c) (c_ev_w c) (c_ftimer c) (c_btimer c) (c_closed c) p d.
 
 Definition set_ropen (s : stream) (b : bool) : stream :=
   mkS (s_state s) (s_attempts s) (s_fcons s) (s_phase s) (s_bcons s) (s_pending s) (s_ka s) (s_origin s) (s_done s) (s_clean s) b (s_interim s).
@@ -358,7 +365,19 @@ Inductive input :=
 | IFrontWrite (all : bool)      (* writable pass on the frontend; all = queue fully drained *)
 | IFrontTimeout
 | IBackTimeout
+| IClientCancel                 (* H2 client: RST_STREAM on this stream; the connection lives on *)
 | IClientClose.
+
+(** ConnectionH1::end_stream in Client position (Connected): the backend connection is kept for
+    reuse iff keep-alive and (the rule under test) the response is terminated; otherwise it is closed *)
+Definition park_backend (T : tables) (s : stream) (c : conn) : conn :=
+  match s_state s with
+  | SLinked =>
+    let owes := negb (is_terminated (s_phase s)) || match s_interim s with NoInterim => false | _ => true end in
+    let parked := s_ka s && (negb owes || negb (t_park_requires_terminated T)) in
+    set_park c parked (parked && owes)
+  | _ => c
+  end.
 
 Definition in_flight (s : stream) : bool :=
   match s_state s with SLink | SLinked | SUnlinked => true | _ => false end.
@@ -427,7 +446,10 @@ Definition step (T : tables) (redir : option N) (sc : stream * conn) (i : input)
       else
         let s1 := set_attempts s (S (s_attempts s)) in
         match r with
-        | None => (set_state s1 SLinked, set_timers c (c_ftimer c) true, [])
+        | None =>
+          (* a parked keep-alive connection of the cluster is reused first *)
+          (set_state s1 SLinked, set_park (set_timers c (c_ftimer c) true) false false,
+           if c_bparked c && c_bdirty c then [EvCrossTalk] else [])
         | Some k =>
           let o := apply_effs T 0 redir (t_connect T k) (mkO s1 c [] false false) in
           (o_s o, o_c o, o_ev o)
@@ -526,7 +548,7 @@ Definition step (T : tables) (redir : option N) (sc : stream * conn) (i : input)
                frontend recycles the stream and keeps the connection *)
             if c_h2 c || ((s_ka s || negb (t_h1_close_after_close T))
                           && (negb (s_ropen s) || negb (t_h1_close_if_request_open T))) then
-              (fresh, set_arm c false (c_ev_w c), evs0 ++ [EvRelayEnd; EvRecycle])
+              (fresh, park_backend T s (set_arm c false (c_ev_w c)), evs0 ++ [EvRelayEnd; EvRecycle])
             else (set_done s1 true, set_closed c, evs0 ++ [EvRelayEnd; EvClose])
           | _ =>
             if c_h2 c then (fresh, set_arm c false (c_ev_w c), evs0 ++ [EvDefaultSent; EvRecycle])
@@ -561,6 +583,11 @@ Definition step (T : tables) (redir : option N) (sc : stream * conn) (i : input)
       after_timeout T (mkO s'' c' (o_ev o) (o_wait o) (o_write o))
     | _ => (s, c, [])
     end
+  | IClientCancel =>
+    (* h2.rs reset from the peer: the stream ends on its backend connection (end_stream, Client
+       position) and the slot is recycled *)
+    if c_h2 c && in_flight s then (fresh, park_backend T s (set_timers c (c_ftimer c) false), [EvCancelled; EvRecycle])
+    else (s, c, [])
   | IClientClose =>
     (s, set_closed c, [EvClientGone])
   end.
@@ -571,18 +598,21 @@ Fixpoint run (T : tables) (redir : option N) (sc : stream * conn) (is : list inp
   | i :: r => let '(s', c', evs) := step T redir sc i in evs ++ run T redir (s', c') r
   end.
 
-Definition init_conn (h2 : bool) : conn := mkC h2 false false true false false.
+Definition init_conn (h2 : bool) : conn := mkC h2 false false true false false false false.
 
 (** * Two streams sharing one frontend connection (product construction).
     Each stream has its own backend connection (its own backend timer); the
     frontend readiness word, the frontend timer and the session's life are shared. *)
 Record conn2 := mkC2 { k_h2 : bool; k_int_w : bool; k_ev_w : bool; k_ftimer : bool; k_closed : bool;
-                       k_bt1 : bool; k_bt2 : bool }.
+                       k_bt1 : bool; k_bt2 : bool; k_bp1 : bool; k_bd1 : bool; k_bp2 : bool; k_bd2 : bool }.
 Definition view (k : conn2) (left : bool) : conn :=
-  mkC (k_h2 k) (k_int_w k) (k_ev_w k) (k_ftimer k) (if left then k_bt1 k else k_bt2 k) (k_closed k).
+  mkC (k_h2 k) (k_int_w k) (k_ev_w k) (k_ftimer k) (if left then k_bt1 k else k_bt2 k) (k_closed k)
+      (if left then k_bp1 k else k_bp2 k) (if left then k_bd1 k else k_bd2 k).
 Definition merge (k : conn2) (left : bool) (c : conn) : conn2 :=
   mkC2 (c_h2 c) (c_int_w c) (c_ev_w c) (c_ftimer c) (c_closed c)
-       (if left then c_btimer c else k_bt1 k) (if left then k_bt2 k else c_btimer c).
+       (if left then c_btimer c else k_bt1 k) (if left then k_bt2 k else c_btimer c)
+       (if left then c_bparked c else k_bp1 k) (if left then c_bdirty c else k_bd1 k)
+       (if left then k_bp2 k else c_bparked c) (if left then k_bd2 k else c_bdirty c).
 
 (** an input addressed to one of the two streams *)
 Definition step2 (T : tables) (redir : option N) (s1 s2 : stream) (k : conn2) (left : bool) (i : input)
